@@ -347,33 +347,43 @@ func TestDrive(t *testing.T) {
 			pcs = append(pcs, pc{a, mr, 250 * time.Millisecond, 2, 0.1, 503, 0})
 		}
 	}
-	for pi, p := range pcs {
-		pol := &retry.GenericPolicy{Retryable: retry.DefaultPredicate, Backoff: retry.ExponentialBackoff(p.backoff, p.factor, p.jitter), MinWait: minWait, MaxWait: maxWait, MaxRetry: p.maxRetry}
-		h := http.Header{}
-		if p.ra > 0 {
-			h.Set("Retry-After", fmt.Sprint(p.ra))
-		}
-		resp := &http.Response{StatusCode: p.status, Header: h}
-		var d time.Duration
-		panicked := false
-		func() {
-			defer func() {
-				if r := recover(); r != nil {
-					panicked = true
-				}
+	// every parameter choice under the usual bounds and under a fixed interval (MinWait = MaxWait, also 0 = 0)
+	type bounds struct{ lo, hi time.Duration }
+	npol := 0
+	for _, bd := range []bounds{{minWait, maxWait}, {500 * time.Millisecond, 500 * time.Millisecond}, {0, 0}} {
+		for pi, p := range pcs {
+			if bd.lo == bd.hi && pi%3 != 0 {
+				continue
+			}
+			npol++
+			minWait, maxWait := bd.lo, bd.hi
+			pol := &retry.GenericPolicy{Retryable: retry.DefaultPredicate, Backoff: retry.ExponentialBackoff(p.backoff, p.factor, p.jitter), MinWait: minWait, MaxWait: maxWait, MaxRetry: p.maxRetry}
+			h := http.Header{}
+			if p.ra > 0 {
+				h.Set("Retry-After", fmt.Sprint(p.ra))
+			}
+			resp := &http.Response{StatusCode: p.status, Header: h}
+			var d time.Duration
+			panicked := false
+			func() {
+				defer func() {
+					if r := recover(); r != nil {
+						panicked = true
+					}
+				}()
+				d, _ = pol.Retry(p.attempt, resp, nil)
 			}()
-			d, _ = pol.Retry(p.attempt, resp, nil)
-		}()
-		pause := int64(-1)
-		if d >= 0 {
-			pause = d.Milliseconds()
+			pause := int64(-1)
+			if d >= 0 {
+				pause = d.Milliseconds()
+			}
+			emit(map[string]any{"e": "retry", "kind": "policy", "case": pi, "attempt": p.attempt, "maxretry": p.maxRetry, "backoffns": int64(p.backoff/time.Nanosecond) % (1 << 30),
+				"factor": fmt.Sprint(p.factor), "jitter": fmt.Sprint(p.jitter), "status": p.status, "retryafter": min(p.ra, 1000000), "pause": pause, "panic": panicked,
+				"minwait": minWait.Milliseconds(), "maxwait": maxWait.Milliseconds()})
 		}
-		emit(map[string]any{"e": "retry", "kind": "policy", "case": pi, "attempt": p.attempt, "maxretry": p.maxRetry, "backoffns": int64(p.backoff/time.Nanosecond) % (1 << 30),
-			"factor": fmt.Sprint(p.factor), "jitter": fmt.Sprint(p.jitter), "status": p.status, "retryafter": min(p.ra, 1000000), "pause": pause, "panic": panicked,
-			"minwait": minWait.Milliseconds(), "maxwait": maxWait.Milliseconds()})
 	}
 	rot.Close()
-	sum, _ := json.Marshal(map[string]any{"cases": len(cases), "records": n, "stack": len(stacks) * 2, "policy": len(pcs), "files": rot.Files})
+	sum, _ := json.Marshal(map[string]any{"cases": len(cases), "records": n, "stack": len(stacks) * 2, "policy": npol, "files": rot.Files})
 	os.WriteFile(out+"/summary.json", sum, 0o644)
 }
 
